@@ -679,5 +679,9 @@ pub fn spec_by_name(name: &str) -> &'static Spec {
 
 /// The harness-defined key-stretching function (see adapter::ProbeKsf): a keyed byte permutation.
 pub fn probe_ksf(id: u32, input: &[u8]) -> Vec<u8> {
+    if id == 99 {
+        // a maximally lossy stretching function: constant output (every secret must still depend on the OPRF output)
+        return vec![0x42u8; input.len()];
+    }
     input.iter().enumerate().map(|(i, b)| b.wrapping_add(((id as u8).wrapping_add(1)).wrapping_mul((i as u8).wrapping_mul(2).wrapping_add(1)))).collect()
 }
